@@ -203,6 +203,18 @@ chk(
     "table extraction by provenance patterns + dominance (completeness test) over rustc_private facts",
 )
 
+chk(
+    "C18",
+    "Partial: decided from the CLI's MIR are delegation without transformation (expression text -> compile, input text -> "
+    "from_json -> search -> show_result with the --unquoted flag), the two output forms and their selecting condition, the "
+    "trailing newline, --ast (prints, exits 0, never reads input), the failure discipline (every non-zero exit follows a "
+    "stderr diagnostic, is reached only on an Err edge / in a map_err closure, and cannot be preceded by a stdout write; exit 0 "
+    "only for --ast) and a panic-site inventory of the CLI with discharge rules (diverging map_err closures, guarded unwrap, "
+    "clap required/conflicts rows). Not decided: the exact bytes printed and clap's own parsing.",
+    "Trusted: clap 2's required/conflicts semantics; std map_err/map closure discipline; stdout/stderr writes succeed.",
+    "provenance + dominance + reachability (stdout-before-exit) + panic-site inventory over the CLI's rustc_private facts",
+)
+
 for pid in [f"C{n:02d}" for n in range(1, 19)]:
     if pid not in CHECKS and pid not in NOT_APPLICABLE:
         na(pid, "check not implemented yet in this revision of /verif (work in progress; see DESIGN.md §3)")
